@@ -22,6 +22,7 @@ from __future__ import annotations
 import copy
 import json
 import multiprocessing as mp
+import zlib
 
 from harness import simulation as S
 from harness.core import MachineryError
@@ -38,7 +39,8 @@ def _chunk(args):
     maxerr = 0.0
     for j, line in enumerate(lines):
         rec = json.loads(line)
-        i = base + j
+        # TLC's emission order varies between runs: derive seed / flavour from the content, not the position
+        i = zlib.crc32(line.strip().encode()) % 1000003
         bad, u, n, info = S.check_case(rec, seed=seed * 100003 + i, variant=i + seed)
         nev += n
         out.extend(bad)
